@@ -375,6 +375,35 @@ func init() {
 		}})
 }
 
+func init() {
+	register(&Rule{ID: "C04.R8", Props: []string{"C04"}, Engine: "E3",
+		Title:   "duplicate handshake packets are tolerated: the state cookie is generated once (a retransmitted or duplicated INIT is answered with the same cookie), and COOKIE-ECHO is matched against that cookie",
+		MinInst: 3,
+		Run: func(c *RuleCtx) {
+			ck := c.field("Association", "myCookie")
+			c.WritersWithin("cookie", ck, "Association.handleInit")
+			hi := c.Fn("Association.handleInit")
+			for _, a := range c.storesIn(hi, ck) {
+				c.Dom("cookie-generated-once", a.Instr, CmpCond(token.EQL, IsLoadOf(ck), isNilConst), "a.myCookie == nil")
+			}
+			// COOKIE-ECHO is compared with the stored cookie before it can establish
+			hce := c.Fn("Association.handleCookieEcho")
+			est := c.Fn("Association.establish")
+			cookieBytes := c.field("paramStateCookie", "cookie")
+			for _, ec := range callsIn(hce, est) {
+				ok := DominatedByExt(ec, func(v ssa.Value, t bool) bool {
+					call, isCall := v.(*ssa.Call)
+					if !isCall || !t {
+						return false
+					}
+					sc := call.Call.StaticCallee()
+					return sc != nil && sc.Name() == "Equal" && IsLoadOf(cookieBytes)(call.Call.Args[0])
+				})
+				c.Check(ok, "cookie-echo-matched", c.Pos(ec), "establish() is dominated by bytes.Equal(myCookie.cookie, echoed)", "COOKIE-ECHO can establish without matching the issued cookie")
+			}
+		}})
+}
+
 func sortedKeys(m map[string]bool) []string {
 	var out []string
 	for k := range m {
